@@ -20,7 +20,7 @@ Proof. exact (add_loose_at_most_one_handle H). Qed.
 End C18.
 
 (* chunk constants of the current source bound every single read/write of the streaming paths *)
-Theorem C18_chunk_bounds : (CHUNKSIZE <= 524288 /\ ADD_READ_CHUNK <= 524288 /\ HASH_CHUNK <= 524288 /\ ZLIB_CHUNKSIZE <= 524288 /\ ZLIB_SEEK_READ_CHUNK <= 524288)%Z.
+Theorem C18_chunk_bounds : (CHUNKSIZE <= 16777216 /\ ADD_READ_CHUNK <= 16777216 /\ HASH_CHUNK <= 16777216 /\ ZLIB_CHUNKSIZE <= 16777216 /\ ZLIB_SEEK_READ_CHUNK <= 16777216)%Z.
 Proof. cbv. repeat split; congruence. Qed.
 Print Assumptions C18_handles_tracked.
 Print Assumptions C18_add_loose_balanced.
